@@ -4,3 +4,4 @@ import Generated.CoreHandleIf
 import Generated.CoreScanner
 import Generated.CoreConsiderLine
 import Generated.CoreModes
+import Generated.CoreMatches
